@@ -78,6 +78,17 @@ def run(ctx, rep):
         st["_advertised_capabilities"] = [(hex(c), v) for c, v in recs]
         capstates.insert(0, st)
     states = capstates + states
+    # the same object applies twice (nothing changed in between / one field changed): the second command is the requested state too
+    twice = []
+    for i in range(ctx.n(300, 3000)):
+        st = rand_state(ctx.rng)
+        if i % 2 == 0:
+            st["beep"] = 1
+        st2 = dict(st)
+        if i % 3 == 0:
+            k = ctx.rng.choice(ORDER); st2[k] = ctx.rng.choice(DOMAIN[k])
+        ops = [(FIELDS[k], st[k]) for k in ORDER] + [(2, 0)] + [(FIELDS[k], st2[k]) for k in ORDER if st2[k] != st[k]] + [(2, 0)]
+        twice.append((ops, [[], []], ctx.rng.randrange(256), st2))
     # correspondence of the whole apply() path (state dump + sent bodies) on a slice; bodies for all
     nb = ctx.n(600, 6000) + ncap
     res = D.compare(ctx, rep, cases[:nb], tag="apply")
@@ -100,5 +111,15 @@ def run(ctx, rep):
         if key in seen and seen[key] != exp:
             rep.fail("oracle", "two-states-one-body", {"state": st, "other": seen[key]}, {"body": bytes(body).hex()})
         seen[key] = exp
+    res2 = D.compare(ctx, rep, [t[:3] for t in twice], tag="apply-twice")
+    dec2 = ctx.model.batch([(F_DECODE, [([b for b in r[3] if b and b[0] == 0x40] or [[]])[-1]]) for r in res2])
+    for (ops, _, _, st2), r, (dst, douts) in zip(twice, res2, dec2):
+        n40 = [b for b in r[3] if b and b[0] == 0x40]
+        rep.case(("twice", tuple(n40[-1]) if n40 else None), "apply-twice")
+        if r[0] != 0 or len(n40) != 2:
+            rep.fail("oracle", "apply-raised", {"ops": ops}, {"status": r[0], "commands_sent": len(n40)})
+        elif dst != 0 or douts[0] != expected(st2):
+            rep.fail("oracle", "decoded-state-differs:second-apply-of-the-same-object", {"ops": ops, "requested": st2},
+                     {"body": bytes(n40[-1]).hex(), "decoded": douts[0] if dst == 0 else None, "requested": expected(st2)})
     rep.sample({"state": states[0], "body": bytes(bodies[0]).hex()})
     rep.sample({"state": states[-1], "body": bytes(bodies[-1]).hex()})
